@@ -46,6 +46,7 @@ func constString(v ssa.Value) (string, bool) {
 func rulesC11(c *Ctx) {
 	p := c.P
 	ruleC11Verbatim(c)
+	ruleC11Unescape(c)
 	// --- grammar table -------------------------------------------------------------------
 	g4, err := os.ReadFile(filepath.Join(p.Root, "zitiql", "ZitiQl.g4"))
 	if err != nil {
@@ -524,4 +525,41 @@ func calleeOf2(in ssa.Instruction) (*types.Func, bool) {
 		return nil, false
 	}
 	return calleeOf(call.Common())
+}
+
+// ruleC11Unescape: a string literal denotes the same string wherever it is written: every string constant
+// the parse listener builds holds what zitiql.ParseZqlString made of the token text (quotes removed,
+// escapes resolved) — in a comparison as well as inside an array.
+func ruleC11Unescape(c *Ctx) {
+	p := c.P
+	lst := p.Named("ast", "ToBoltListener")
+	valFld := p.Field("ast", "StringConstNode", "value")
+	unesc := p.Func("zitiql", "ParseZqlString")
+	n := 0
+	for _, fn := range c.prodFuncs("ast") {
+		root := fn
+		for root.Parent() != nil {
+			root = root.Parent()
+		}
+		if root.Signature.Recv() == nil || namedOf(root.Signature.Recv().Type()) != lst {
+			continue
+		}
+		for _, b := range fn.Blocks {
+			for _, in := range b.Instrs {
+				st, ok := in.(*ssa.Store)
+				if !ok {
+					continue
+				}
+				if f, _ := fieldOfAddr(st.Addr); !sameVar(f, valFld) {
+					continue
+				}
+				n++
+				call, isCall := st.Val.(*ssa.Call)
+				c.Check(isCall && isCallTo(call, unesc), "C11.CONSTVALUE", FnName(fn)+": string constant", p.Pos(st.Pos()),
+					"the constant holds what ParseZqlString made of the literal", "the listener builds a string constant from "+describeValue(st.Val)+" instead of the result of zitiql.ParseZqlString: in this position escape sequences of the literal are not resolved, so the same literal denotes a different string here than as a comparison operand")
+			}
+		}
+	}
+	c.CallSites(n)
+	c.Floor("C11.CONSTVALUE", 1)
 }
